@@ -187,8 +187,14 @@ class SimpleDictDocument(DictDocument):
 
         logger.debug("Simple type info key: %r", simple_type_info.keys())
 
+        try:
+            sorted_items = sorted(doc.items(), key=_natural_key)
+        except ValueError as e:
+            # an array index with more digits than int() is willing to read
+            raise ValidationError(None, "Invalid array index: %s" % (e,))
+
         idxmap = defaultdict(dict)
-        for orig_k, v in sorted(doc.items(), key=_natural_key):
+        for orig_k, v in sorted_items:
             k = RE_HTTP_ARRAY_INDEX.sub("", orig_k)
 
             member = simple_type_info.get(k, None)
